@@ -261,12 +261,16 @@ def main(argv=None):
   summary = '%s tier=%s seed=%d cases=%d nontrivial=%d wall=%.1fs' % (
       prop, tier, seed, evaluations, len(nontrivial_fps) + extra_nontrivial, wall)
   if status == 'violated':
-    seen = set()
-    for (r, v), path in zip(viols, replay_paths):
+    seen = collections.Counter()
+    for (r, v) in viols:
+      seen[(v.get('clause'), v.get('mech'))] += 1
+    shown = set()
+    for (r, v) in viols:
       tag = (v.get('clause'), v.get('mech'))
-      if tag in seen and len(seen) > 8:
+      if tag in shown or len(shown) >= 15:
         continue
-      seen.add(tag)
+      shown.add(tag)
+      print('  [%dx]' % seen[tag], end='')
       print('  violation case=%d clause=%s mech=%s: %s' % (
           r['idx'], v.get('clause'), v.get('mech'), str(v.get('detail', ''))[:300]))
     print('VIOLATION property=%s replay=%s' % (prop, replay_paths[0]))
